@@ -166,13 +166,14 @@ fn check_orphan(r: &ExecResult) -> Vec<Finding> {
 pub fn scenarios(tier: Tier) -> Vec<Scenario> {
     let mut v = vec![];
     // end_a: how store 0 ends while store 1 is busy: 0 stop(), 1 drop(DroppableStore)
-    let mut add = |same_cfg: bool, shared_sub: bool, end_a: u8, k: u32, bound: u32| {
+    // default_name: both stores keep the builder's default name ("store")
+    let mut add_x = |same_cfg: bool, shared_sub: bool, end_a: u8, k: u32, bound: u32, default_name: bool| {
         // end_a == 2: store A keeps running, but the shared subscriber is unsubscribed from A
         let unsub_shared = end_a == 2;
         let mut a = StoreSpec::new(1, 1, Pol::Block);
-        a.name = Some("same");
+        a.name = if default_name { None } else { Some("same") };
         let mut b = if same_cfg { StoreSpec::new(1, 1, Pol::Block) } else { StoreSpec::new(2, 2, Pol::Block) };
-        b.name = Some("same");
+        b.name = a.name;
         let mut prog = Program::new(a);
         prog.stores.push(b);
         prog.droppable = end_a == 1;
@@ -204,13 +205,19 @@ pub fn scenarios(tier: Tier) -> Vec<Scenario> {
         ]);
         prog = prog.main(main);
         v.push(scn(
-            format!("C19/{}{}end{}k{}", if same_cfg { "same" } else { "diff" }, if shared_sub { "+shared" } else { "" }, end_a, k),
+            format!("C19/{}{}end{}k{}{}", if same_cfg { "same" } else { "diff" }, if shared_sub { "+shared" } else { "" }, end_a, k, if default_name { "+defaultname" } else { "" }),
             prog,
             bound,
             opts_elide(),
             check,
         ));
     };
+    add_x(true, false, 1, 1, 2, true);
+    if tier == Tier::Thorough {
+        add_x(false, false, 1, 2, 2, true);
+        add_x(true, false, 0, 2, 2, true);
+    }
+    let mut add = |same_cfg: bool, shared_sub: bool, end_a: u8, k: u32, bound: u32| add_x(same_cfg, shared_sub, end_a, k, bound, false);
     match tier {
         Tier::Quick => {
             add(true, true, 0, 1, 2);
